@@ -5,7 +5,7 @@ NOT_APPLICABLE = {
            "threads or multiprocessing symbolically, and a sequential stub would decide one schedule only (DESIGN §4 C13)",
 }
 ENGINES = [
-    {"name": "pysym", "path": "vf/pysym", "serves_properties": ["C17", "C07", "C06", "C09", "C10", "C12"],
+    {"name": "pysym", "path": "vf/pysym", "serves_properties": ["C17", "C07", "C06", "C09", "C10", "C12", "C04"],
      "kind_free_text": "bounded path-forking symbolic interpreter over the AST of the real py7zr sources (re-parsed "
                        "from /repo on every run), z3 bit-vectors / integers / ropes; solver verdict per path"},
 ]
@@ -19,6 +19,18 @@ RD_NOTE = ("codec libraries replaced by a decoder contract stub (next r bytes of
            "oracle; archive shapes (entry kinds, folder partition, layout options) are an enumerated bound, all sizes, CRCs, "
            "timestamps, pack sizes symbolic")
 CHECKS = {
+    "C04": dict(engine=B, ref="DESIGN.md §4 C04",
+                technique="bounded symbolic execution of the real open/extract/testzip/test code from the AST against an adversarial "
+                          "decoder stub (decoded stream altered from a symbolic offset) with CRC32 as a collision-free abstraction; "
+                          "z3 decides 'success => every delivered member is unaltered'",
+                text="(1) SignatureHeader._read on all 2^256 header images accepts only when the stored CRC covers bytes 12..31; "
+                     "(2) opening accepts only when the stored next-header CRC is the CRC of exactly the header bytes; (3) with one "
+                     "folder's decoded stream damaged from any offset, every selection, extraction to a factory or to paths "
+                     "(regular and symlink members) and testzip: a normal return implies that no delivered member contains an "
+                     "altered byte / testzip()==None implies no member is damaged; (4) test()==True implies every packed stream "
+                     "with a defined CRC is unaltered, for every defined-vector and block size.",
+                note=RD_NOTE + "; what real decoders do with damaged input (raise or garbage) is covered by the stub allowing both; "
+                     "CRC collisions and members stored without CRC are outside"),
     "C12": dict(engine=B, ref="DESIGN.md §4 C12",
                 technique="bounded symbolic execution of the real read-session methods from the AST, one shard per allowed call "
                           "sequence, stateful position-tracking decoder stubs cached by the real Folder.get_decompressor; z3 decides",
